@@ -17,6 +17,8 @@ import (
 	"go/ast"
 	"go/printer"
 	"go/token"
+	"os"
+	"path/filepath"
 	"strings"
 )
 
@@ -135,8 +137,133 @@ func init() {
 		fmt.Fprintf(&b, "def retryConnect : Nat := %d\ndef retryGet : Nat := %d\n\n", rc, rg)
 		b.WriteString("/-- arms of `switch err.(type)` in clusterInvoke: (case types, what is assigned to allowRetry):\n    \"true\" | \"check\" = checkAllowRetry(cluster.RetryLevel(), outreq) | \"none\" = stays false -/\n")
 		b.WriteString("def retrySwitch : List (List String × String) := [\n" + strings.Join(arms, ",\n") + "\n]\n")
+		extra, err := c08Outside(repo)
+		if err != nil {
+			return "", err
+		}
+		b.WriteString(extra)
 		fmt.Fprintf(&b, "\n/-- checkAllowRetry's body is still `if retryLevel == cluster_conf.RetryGet { if outreq.Method == \"GET\" && checkRequestWithoutBody(outreq) { return true } } return false` -/\ndef checkAllowRetryAsModelled : Bool := %v\n", bodyOK)
 		b.WriteString(footer("C08"))
 		return b.String(), nil
 	})
+}
+
+// c08Outside extracts the facts about code AROUND clusterInvoke that could also resend a request:
+//   - ReverseProxy.ServeHTTP calls clusterInvoke once, not inside a loop, and every label a `goto` can reach lies after it
+//   - the three RoundTrippers bfe creates (bfe_http.Transport, bfe_fcgi.Transport, bfe_http2.Transport wrapper) call
+//     their single send primitive once and not in a loop; the h2c wrapper builds the x/net request without GetBody
+//   - the pinned golang.org/x/net version (whose http2.Transport has its own retry, modelled in C08/Model.lean)
+func c08Outside(repo string) (string, error) {
+	var b strings.Builder
+	count := func(rel, recv, fn, sel string) (calls int, inLoop bool, loops int, lit map[string]bool, err error) {
+		fset, f, e := parseFile(repo, rel)
+		if e != nil {
+			return 0, false, 0, nil, e
+		}
+		d := findFunc(f, recv, fn)
+		if d == nil || d.Body == nil {
+			return 0, false, 0, nil, fmt.Errorf("%s: func %s.%s not found", rel, recv, fn)
+		}
+		lit = map[string]bool{}
+		var walk func(n ast.Node, depth int)
+		walk = func(n ast.Node, depth int) {
+			ast.Inspect(n, func(nd ast.Node) bool {
+				switch v := nd.(type) {
+				case *ast.ForStmt:
+					loops++
+					walk(v.Body, depth+1)
+					return false
+				case *ast.RangeStmt:
+					loops++
+					walk(v.Body, depth+1)
+					return false
+				case *ast.FuncLit:
+					return false
+				case *ast.CallExpr:
+					if c08ExprString(fset, v.Fun) == sel {
+						calls++
+						if depth > 0 {
+							inLoop = true
+						}
+					}
+				case *ast.CompositeLit:
+					if c08ExprString(fset, v.Type) == "http.Request" {
+						for _, el := range v.Elts {
+							if kv, ok := el.(*ast.KeyValueExpr); ok {
+								lit[c08ExprString(fset, kv.Key)] = true
+							}
+						}
+					}
+				}
+				return true
+			})
+		}
+		walk(d.Body, 0)
+		return
+	}
+	// ServeHTTP
+	fset, f, err := parseFile(repo, "bfe_server/reverseproxy.go")
+	if err != nil {
+		return "", err
+	}
+	sh := findFunc(f, "ReverseProxy", "ServeHTTP")
+	if sh == nil {
+		return "", fmt.Errorf("(*ReverseProxy).ServeHTTP not found")
+	}
+	calls, inLoop, _, _, err := count("bfe_server/reverseproxy.go", "ReverseProxy", "ServeHTTP", "p.clusterInvoke")
+	if err != nil {
+		return "", err
+	}
+	var callPos token.Pos
+	labelBefore := false
+	ast.Inspect(sh, func(nd ast.Node) bool {
+		if c, ok := nd.(*ast.CallExpr); ok && c08ExprString(fset, c.Fun) == "p.clusterInvoke" {
+			callPos = c.Pos()
+		}
+		return true
+	})
+	ast.Inspect(sh, func(nd ast.Node) bool {
+		if l, ok := nd.(*ast.LabeledStmt); ok && l.Pos() < callPos {
+			labelBefore = true
+		}
+		return true
+	})
+	fmt.Fprintf(&b, "/-- ReverseProxy.ServeHTTP: number of calls of p.clusterInvoke / one of them inside a for loop / a label (goto target) before the call -/\n")
+	fmt.Fprintf(&b, "def serveHTTPInvokeCalls : Nat := %d\ndef serveHTTPInvokeInLoop : Bool := %v\ndef serveHTTPLabelBeforeInvoke : Bool := %v\n\n", calls, inLoop, labelBefore)
+	// transports
+	c1, l1, _, _, err := count("bfe_http/transport.go", "Transport", "RoundTrip", "pconn.roundTrip")
+	if err != nil {
+		return "", err
+	}
+	g1, gl1, _, _, _ := count("bfe_http/transport.go", "Transport", "RoundTrip", "t.getConn")
+	fmt.Fprintf(&b, "/-- bfe_http.Transport.RoundTrip: calls of pconn.roundTrip and t.getConn, any of them in a loop -/\n")
+	fmt.Fprintf(&b, "def httpRoundTripSends : Nat := %d\ndef httpRoundTripDials : Nat := %d\ndef httpRoundTripInLoop : Bool := %v\n\n", c1, g1, l1 || gl1)
+	c2, l2, _, _, err := count("bfe_fcgi/transport.go", "Transport", "RoundTrip", "client.Do")
+	if err != nil {
+		return "", err
+	}
+	fmt.Fprintf(&b, "/-- bfe_fcgi.Transport.RoundTrip: calls of client.Do, in a loop -/\ndef fcgiRoundTripSends : Nat := %d\ndef fcgiRoundTripInLoop : Bool := %v\n\n", c2, l2)
+	c3, l3, _, lit, err := count("bfe_http2/transport.go", "Transport", "RoundTrip", "t.T.RoundTrip")
+	if err != nil {
+		return "", err
+	}
+	fmt.Fprintf(&b, "/-- bfe_http2.Transport.RoundTrip (h2c backends): calls of the x/net transport, in a loop, and whether the request it\n    builds carries Body / GetBody -/\n")
+	fmt.Fprintf(&b, "def h2cRoundTripSends : Nat := %d\ndef h2cRoundTripInLoop : Bool := %v\ndef h2cSetsBody : Bool := %v\ndef h2cSetsGetBody : Bool := %v\n\n", c3, l3, lit["Body"], lit["GetBody"])
+	// x/net version
+	gm, err := os.ReadFile(filepath.Join(repo, "go.mod"))
+	if err != nil {
+		return "", err
+	}
+	ver := ""
+	for _, line := range strings.Split(string(gm), "\n") {
+		fs := strings.Fields(line)
+		if len(fs) >= 2 && fs[0] == "golang.org/x/net" {
+			ver = fs[1]
+		}
+	}
+	if ver == "" {
+		return "", fmt.Errorf("golang.org/x/net not required in go.mod")
+	}
+	fmt.Fprintf(&b, "/-- version of golang.org/x/net in go.mod (its http2.Transport retry rule is transcribed in C08/Model.lean) -/\ndef xnetVersion : String := %s\n", leanStr(ver))
+	return b.String(), nil
 }
